@@ -431,6 +431,17 @@ def semantic_mutants(tok, raw, ver):
             out.append(("ske-dh-p=1", mk(enc([b"\x01", fields[1], fields[2]]))))
             out.append(("ske-dh-p-even", mk(enc([(pval - 1).to_bytes(len(fields[0]), "big"), fields[1], fields[2]]))))
             out.append(("ske-dh-p-tiny", mk(enc([b"\x17", b"\x05", b"\x03"]))))
+    if tok in ("SKE", "CV") and len(body) > 40:
+        # the trailing signature<0..2^16-1>: shortened / emptied / extended / garbage DER, all lengths consistent
+        for pos in range(len(body) - 34, 1, -1):
+            n = (body[pos] << 8) | body[pos + 1]
+            if n == len(body) - pos - 2 and n >= 32:
+                head, sig = body[:pos], body[pos + 2:]
+                for nm, s2 in (("sig-trunc1", sig[:-1]), ("sig-trunc-half", sig[:len(sig) // 2]), ("sig-empty", b""),
+                               ("sig-extend1", sig + b"\x00"), ("sig-one-byte", sig[:1]), ("sig-der-garbage", b"\x30\x82" + sig[2:]),
+                               ("sig-zeros", bytes(len(sig)))):
+                    out.append((nm, mk(head + bytes([len(s2) >> 8, len(s2) & 255]) + s2)))
+                break
     if tok == "CKE" and len(body) > 2:
         out.append(("cke-empty", mk(b"")))
         out.append(("cke-zero-share", mk(body[:1] + bytes(len(body) - 1))))
@@ -610,11 +621,11 @@ def run(tier):
     rep.assumptions = ["memory bound: 40 MiB (8 MiB + twice the protocol maximum of one handshake message, 2^24: the message and one transient copy) + 64 x bytes received, peak of BOTH endpoints; work bound: 200 000 + 400 x bytes generator steps"]
     F = FL.flavour
     flavs = [F(3, "ecdhe_rsa"), F(4, "tls13"), F(3, "dhe_rsa", reqCert="cert"), F(1, "rsa"), F(3, "srp_sha"), F(4, "tls13", reqCert="cert"),
-             F(4, "tls13_ecdsa", dc="ecdsa"),
+             F(4, "tls13_ecdsa", dc="ecdsa"), F(3, "dhe_dsa", reqCert="cert", ccred="c_dsa"),
              F(3, "ecdhe_ecdsa", ticket=True), F(0, "dhe_rsa"), F(4, "tls13", hrr=True), F(4, "tls13", resume="psk", tickets13=1),
              F(3, "rsa", resume="id"), F(2, "dh_anon"), F(3, "ecdhe_rsa", npn=True, reqCert="nocert")]
     if tier == "quick":
-        flavs = flavs[:7]
+        flavs = flavs[:8]
     with Pool(16) as pool:
         refs = pool.map(reference, [(i, f, r) for i, f in enumerate(flavs) for r in ("c", "s")])
     rnd = random.Random(repr((env.SEED, "c08")))
